@@ -178,6 +178,35 @@ func (a *armTracker) oldest() time.Duration {
 	return d
 }
 
+// doubleTimeout: more than one time-out on the same connection in one observation line
+func doubleTimeout(out string) bool {
+	n := map[string]int{}
+	for _, p := range strings.Split(out, " ") {
+		f := strings.Split(p, ":")
+		switch {
+		case f[0] == "cancel" && f[len(f)-1] == "timeout":
+			c := ""
+			if len(f) == 4 {
+				c = f[1]
+			}
+			n[c]++
+		case f[0] == "deliv" && len(f) >= 4 && f[2] == "timeout":
+			// protocol layer: the client is not part of the observation; ids carry it (s<session><client letter><n>)
+			c := strings.TrimLeft(f[3], "sk0123456789")
+			if len(c) > 0 {
+				c = c[:1]
+			}
+			n[c]++
+		}
+	}
+	for _, v := range n {
+		if v > 1 {
+			return true
+		}
+	}
+	return false
+}
+
 type evlog struct {
 	mu  sync.Mutex
 	evs []string
@@ -363,6 +392,13 @@ func runCDisp(ops []string, emit func(string)) {
 		}
 		if f[0] == "disconnect" || f[0] == "stop" {
 			arms.reset()
+		}
+		if f[0] == "wait" && doubleTimeout(out) {
+			// two expiries on one connection within one `wait`: the harness overslept (the second request was written
+			// when the first expired); the quiescent model fires each armed timer once per wait
+			tainted = true
+			emit("TIMING")
+			continue
 		}
 		if f[0] != "wait" && strings.Contains(out, ":timeout") {
 			// a real timer fired although the model's clock did not advance: the harness was descheduled
